@@ -70,12 +70,12 @@ SlotDiff(o, C, depth, helper) ==
      \cup (IF \E r \in RxU : o.sbo[r] # C.sbo[r] THEN {"sbo"} ELSE {})
      \cup (IF \E g \in GeneU : o.func[g] # C.func[g] THEN {"func"} ELSE {})
      \cup (IF \E g \in GrpU : SeqSet(o.member[g]) # C.member[g] THEN {"member"} ELSE {})
-     \cup (IF \E x \in AllIds : o.ann[x] # C.ann[x] THEN {"ann"} ELSE {})
-     \cup (IF \E x \in AllIds : o.note[x] # C.note[x] THEN {"note"} ELSE {})
-     \cup (IF \E x \in AllIds : o.attr[x].name # C.attr[x].name THEN {"name"} ELSE {})
-     \cup (IF \E x \in AllIds : o.attr[x].formula # C.attr[x].formula THEN {"formula"} ELSE {})
-     \cup (IF \E x \in AllIds : o.attr[x].charge # C.attr[x].charge THEN {"charge"} ELSE {})
-     \cup (IF \E x \in AllIds : C.attr[x].subsys # -1 /\ o.attr[x].subsys # C.attr[x].subsys THEN {"subsys"} ELSE {})
+     \cup (IF \E x \in AllIds : C.ann[x] # Wild /\ o.ann[x] # C.ann[x] THEN {"ann"} ELSE {})
+     \cup (IF \E x \in AllIds : C.note[x] # Wild /\ o.note[x] # C.note[x] THEN {"note"} ELSE {})
+     \cup (IF \E x \in AllIds : C.attr[x].name # Wild /\ o.attr[x].name # C.attr[x].name THEN {"name"} ELSE {})
+     \cup (IF \E x \in AllIds : C.attr[x].formula # Wild /\ o.attr[x].formula # C.attr[x].formula THEN {"formula"} ELSE {})
+     \cup (IF \E x \in AllIds : C.attr[x].charge # Wild /\ o.attr[x].charge # C.attr[x].charge THEN {"charge"} ELSE {})
+     \cup (IF \E x \in AllIds : C.attr[x].subsys # Wild /\ o.attr[x].subsys # C.attr[x].subsys THEN {"subsys"} ELSE {})
      \cup (IF helper = 0 /\ SeqSet(o.lp.xcols) # C.xcols THEN {"xcols"} ELSE {})
      \cup (IF helper = 0 /\ SeqSet(o.lp.xrows) # C.xrows THEN {"xrows"} ELSE {})
      \cup (IF o.solver # C.solver THEN {"solver"} ELSE {})
